@@ -80,7 +80,7 @@ func c17Place(pos, long string, s1, s2 string, finalNL bool) string {
 	return t
 }
 
-var c17Cmds = []string{"generate include pairs", "generate block", "compare", "generate definition", "generate definition repeated", "generate entry", "generate include", "generate include-except", "generate cmdline", "format", "renumber-tests", "update-copyright", "update"}
+var c17Cmds = []string{"format directive", "generate include pairs", "generate block", "compare", "generate definition", "generate definition repeated", "generate entry", "generate include", "generate include-except", "generate cmdline", "format", "renumber-tests", "update-copyright", "update"}
 
 func C17(r *core.Run) {
 	dir := ""
@@ -216,12 +216,29 @@ func C17(r *core.Run) {
 			}
 			return verdict(c1.Kind == inproc.OK && c2.Kind != inproc.OK, false, true, fmt.Sprintf("compare after update: %s; compare after editing the last byte of the operand: %s", c1.Kind, c2.Kind), len(b))
 		case "generate cmdline":
-			o := root.Generate("##!> cmdline unix\n" + c17Place(c.Pos, "x"+long, "ls", "cat", c.FinalNL) + "\n##!<\n")
+			// the word is exactly n bytes long (n = 1: a one-byte word)
+			o := root.Generate("##!> cmdline unix\n" + c17Place(c.Pos, long, "ls", "cat", c.FinalNL) + "\n##!<\n")
 			if o.Kind != inproc.OK {
 				return verdict(false, true, true, "", 0)
 			}
-			ok, why := matchAll(o.Out, "x"+long, "ls", "cat")
+			ok, why := matchAll(o.Out, long, "ls", "cat")
+			if ok {
+				if m, _ := matchAll(o.Out, ""); m {
+					ok, why = false, "the generated regex accepts the empty string"
+				}
+			}
 			return verdict(ok, false, true, why, len(o.Out))
+		case "format directive":
+			// long directive lines (definition, prefix, suffix, include with pairs) are rebuilt by the formatter
+			p := filepath.Join(wd, "regex-assembly/123456.ra")
+			x := raHeader1 + "\n" + raHeader2 + "\n\n" + c17Place(c.Pos, "##!> define d "+long+"\n##!^ "+long+"z\n##!$ y"+long+"\n##!> include inc -- a "+long, "foo", "##! tail", c.FinalNL)
+			os.WriteFile(p, []byte(x), 0o644)
+			fr := root.Format(p, false)
+			b, _ := os.ReadFile(p)
+			if fr.Kind != inproc.OK {
+				return verdict(false, true, string(b) == x, "format failed but the file changed", len(b))
+			}
+			return verdict(sameLines(x, string(b)), false, true, fmt.Sprintf("formatted file has %d bytes, input %d: directive text lost", len(b), len(x)), len(b))
 		case "format":
 			p := filepath.Join(wd, "regex-assembly/123456.ra")
 			x := raHeader1 + "\n" + raHeader2 + "\n\n" + c17Place(c.Pos, "  x"+long, "##!> assemble", "  ##!<", c.FinalNL)
